@@ -31,7 +31,7 @@ TRUSTED = ["modelled not verified: BLAKE3; SQL of node_infos_by_topics/node_info
            "serde encodings; HashSet/BTreeMap as duplicate-free/sorted lists"]
 RULE = ("quick: exhaustive honest sessions over a 2-topic universe (all 16 topic-set pairs x 4 sharing configs x 3 address-book shapes) + 150 random honest "
         "sessions (universe <= 12 topics, overlap patterns empty/disjoint/equal/subset/superset/random, books <= 8 nodes with stale / no-transport / self / remote "
-        "entries) + all scripts of length <= 2 (and length 3 after a valid first item) for each side + 180 random one-sided scripted-peer cases (valid scripts, single mutations, random item sequences incl. stream errors, wrong-direction hashes, raw and "
+        "entries) + all scripts of length <= 2 (and length 3 after a valid first item) for each side + 180 random one-sided scripted-peer cases (valid scripts, single mutations, random item sequences incl. stream errors, the peer closing its receiver after 0..3 messages, wrong-direction hashes, raw and "
         "junk words); thorough: universe <= 40, books <= 20, 2500 + 2500 cases. non-trivial honest = non-empty intersection that differs from both sets; "
         "non-trivial script = real side read at least one item")
 
@@ -183,8 +183,9 @@ def _script(rng, umax, nmax, seed):
     else:
         kinds = [rng.choice(["S1", "S2", "H3", "N", "E"]) for _ in range(rng.randint(0, 5))]
     me = 0 if alice else 1
+    sink = rng.randint(0, 3) if rng.random() < 0.3 else None
     return {"mode": "alice" if alice else "bob", "seed": seed, "r": 0 if rng.random() < 0.25 else 1, "topics": own,
-            "book": _book(rng, me, u, nmax, own, own), "script": [item(k) for k in kinds]}
+            "book": _book(rng, me, u, nmax, own, own), "script": [item(k) for k in kinds], "sink": sink}
 
 
 SMALL_BOOKS = [
@@ -227,6 +228,14 @@ def gen(tier, rng):
         for kinds in itertools.product(["S1", "S2", "H3", "N", "E"], repeat=2):
             k += 1
             yield {"mode": mode, "seed": seed0 + k, "r": 1, "topics": [0, 1], "book": SMALL_BOOKS[1](me), "script": [fixed[x] for x in (first,) + kinds]}
+    # sink closing after 0..3 messages against the valid script and its prefixes
+    for mode, valid in (("alice", ["S2", "N"]), ("bob", ["S1", "H3", "N"])):
+        me = 0 if mode == "alice" else 1
+        for n in range(len(valid) + 1):
+            for sink in range(0, 4):
+                k += 1
+                yield {"mode": mode, "seed": seed0 + k, "r": 1, "topics": [0, 1], "book": SMALL_BOOKS[1](me),
+                       "script": [fixed[x] for x in valid[:n]], "sink": sink}
     for _ in range(ns):
         k += 1
         yield _script(rng, umax, nmax, seed0 + k)
@@ -262,8 +271,9 @@ def harness_line(case):
     if case["mode"] == "honest":
         return "honest %d %d %d | %s | %s | %s | %s" % (case["seed"], case["ra"], case["rb"], _csv(case["ta"]), _csv(case["tb"]),
                                                       _book_line(case["bookA"]), _book_line(case["bookB"]))
-    return "%s %d %d | %s | %s | %s" % (case["mode"], case["seed"], case["r"], _csv(case["topics"]), _book_line(case["book"]),
-                                        _script_line(case["script"]))
+    sink = case.get("sink")
+    return "%s %d %d %s | %s | %s | %s" % (case["mode"], case["seed"], case["r"], "-" if sink is None else sink, _csv(case["topics"]),
+                                           _book_line(case["book"]), _script_line(case["script"]))
 
 
 # ------------------------------------------------------------------------------------------------
@@ -318,12 +328,17 @@ def _gscript(script):
     return "[" + ";".join(out) + "]"
 
 
+def _gsink(case):
+    k = case.get("sink")
+    return "None" if k is None else "(Some %d)" % k
+
+
 def coq_model(case):
     if case["mode"] == "honest":
         return "model_honest %s %s %s %s %s %s" % (_b(case["ra"]), _b(case["rb"]), _nl(case["ta"]), _nl(case["tb"]),
                                                    _gbook(case["bookA"]), _gbook(case["bookB"]))
-    return "model_script %s %s %s %s %s" % (_b(case["mode"] == "alice"), _b(case["r"]), _nl(case["topics"]), _gbook(case["book"]),
-                                            _gscript(case["script"]))
+    return "model_script %s %s %s %s %s %s" % (_b(case["mode"] == "alice"), _b(case["r"]), _nl(case["topics"]), _gbook(case["book"]),
+                                               _gscript(case["script"]), _gsink(case))
 
 
 class Unparsable(Exception):
@@ -353,6 +368,8 @@ def _goutcome(s):
             return "(@Fail cw UnexpectedMessage)"
         if v == "Stream":
             return "(@Fail cw StreamErr)"
+        if v == "Sink":
+            return "(@Fail cw SinkErr)"
         raise Unparsable(s)
     if not s.startswith("ok "):
         raise Unparsable(s)
@@ -407,8 +424,8 @@ def coq_oracle(case, impl):
     alice = case["mode"] == "alice"
     if (mb if alice else ma) != "[]":
         return "false"
-    return "check_script %s %s %s %s %s %s %s %d" % (
-        _b(alice), _b(case["r"]), _nl(case["topics"]), _gbook(case["book"]), _gscript(case["script"]),
+    return "check_script %s %s %s %s %s %s %s %s %d" % (
+        _b(alice), _b(case["r"]), _nl(case["topics"]), _gbook(case["book"]), _gscript(case["script"]), _gsink(case),
         _goutcome(parts[0]), ma if alice else mb, _leaks(parts[2]))
 
 
@@ -435,6 +452,10 @@ def shrink(case):
                     c[key] = case[key][:i] + [[e[0], e[1], e[2], without(e[3], j)]] + case[key][i + 1:]
                     yield c
     else:
+        if case.get("sink") is not None:
+            c = dict(case)
+            c["sink"] = None
+            yield c
         for key in ("script", "book", "topics"):
             for i in range(len(case[key])):
                 c = dict(case)
@@ -469,4 +490,6 @@ def distribution(cases, impl):
                 d["script_unexpected"] += 1
             elif o.startswith("err Stream"):
                 d["script_stream"] += 1
+            elif o.startswith("err Sink"):
+                d["script_sink"] = d.get("script_sink", 0) + 1
     return d
